@@ -13,6 +13,7 @@ RULE = ('all decimal steps dt = m*10^-e (m, e in the bounds) x all step counts n
         'conditions give a prefix; oracle = exact rational grid; canon = (dt, T, unit, representation); non-trivial = '
         'dt not an integer')
 ASSUMPTIONS = ['grid values compared at 1e-9 relative; the count is compared exactly',
+               'every inertia of the model is Tmax dt / w0 (k dt <= 0.5), so the motion is stable at every step size from 1 ms to 99 hours',
                'the known defect is characterised independently: numpy.arange with the same three floats yields one element too many']
 EXPLANATION = 'exhaustive enumeration of decimal (dt, n) pairs on a 2-element model; oracle = Fractions'
 
@@ -28,13 +29,26 @@ SPEC_HELD = {'elements': [{'k': 'M', 'J': [1.0, 'gm^2'], 'w0': [2000.0, 'rpm'], 
              'init': {'theta': [0.0, 'rad'], 'w': [0.0, 'rad/s']}}
 
 
+def spec_for(base, dt, unit):
+    """The model with every inertia set to Tmax dt / w0, so that k dt <= 0.5 whatever the step (ms or hours): explicit
+    Euler is unstable beyond k dt = 2 and a run of 100 steps of hours would overflow on a fixed model.  The time axis,
+    not the motion, is the subject here; the motion stays lively (and finite) at every step size."""
+    import copy
+    spec = copy.deepcopy(base)
+    mot = spec['elements'][0]
+    J = si.si(*mot['Tmax'][:1], 'Torque', mot['Tmax'][1]) * si.si(dt, 'TimeInterval', unit) / si.si(mot['w0'][0], 'AngularSpeed', mot['w0'][1])
+    for el in spec['elements']:
+        el['J'] = [J, 'kgm^2']
+    return spec
+
+
 def check_held(acc, m, e, n, unit, pwm):
     """A self-locking chain held by its load (motor off, or overloaded), no motor control, no stop condition:
     the axis is still the full grid, fresh and continued."""
     dtF = dec(m, e)
     dt, T = float(dtF), float(dtF * n)
     case = {'kind': 'held', 'm': m, 'e': e, 'n': n, 'unit': unit, 'pwm': pwm}
-    mod = sim.Model(SPEC_HELD)
+    mod = sim.Model(spec_for(SPEC_HELD, dt, unit))
     mod.elements[0].pwm = pwm
     try:
         mod.run([dt, unit], [T, unit])
@@ -78,7 +92,7 @@ def check_run(acc, m, e, n, rep, unit, cont=None):
     if dtF.denominator == 1 and rep == 'lit' and n % 2:
         dt, T = int(dtF), int(dtF * n)          # integer-valued quantities
     case = {'kind': 'run', 'm': m, 'e': e, 'n': n, 'rep': rep, 'unit': unit, 'cont': cont}
-    mod = sim.Model(SPEC)
+    mod = sim.Model(spec_for(SPEC, dt, unit))
     try:
         mod.run([dt, unit], [T, unit])
     except Exception as ex:
@@ -119,7 +133,7 @@ def check_other_schedules(acc, m, e, n, unit):
     dt = float(dtF)
     T = float(dtF * n)
     case = {'kind': 'sched', 'm': m, 'e': e, 'n': n, 'unit': unit}
-    mod = sim.Model(SPEC)
+    mod = sim.Model(spec_for(SPEC, dt, unit))
     try:
         mod.run([dt, unit], [T, unit])
         mod.pt.reset()
@@ -157,14 +171,14 @@ def check_stopped(acc, m, e, n, unit):
     dt = float(dtF)
     T = float(dtF * n)
     case = {'kind': 'stopped', 'm': m, 'e': e, 'n': n, 'unit': unit}
-    base = sim.Model(SPEC)
+    base = sim.Model(spec_for(SPEC, dt, unit))
     base.run([dt, unit], [T, unit])
     pos = base.series(1, 'angular position')
     k = max(1, n // 2)
     if not (pos[k] < pos[min(k + 1, n)]):
         return
     thr = (pos[k] + pos[min(k + 1, n)]) / 2.0
-    mod = sim.Model(SPEC)
+    mod = sim.Model(spec_for(SPEC, dt, unit))
     try:
         mod.run([dt, unit], [T, unit], stop=sim.make_stop(mod, ['encoder', 1, '>=', [thr, 'rad']]))
     except Exception as ex:
